@@ -1324,6 +1324,33 @@ def _names_bound_in_block(lines: List[str]) -> Set[str]:
     return names
 
 
+_PURE_BUILTINS = {"len", "abs", "min", "max", "int", "float", "bool"}
+
+
+def _range_limit_is_invariant(
+    expr_src: str, block: List[str], ctx: Dict[str, object]
+) -> bool:
+    """True when the value of ``expr_src`` cannot change while ``block`` runs."""
+
+    try:
+        tree = ast.parse(expr_src.strip(), mode="eval")
+    except SyntaxError:
+        return False
+    names: Set[str] = set()
+    for node in ast.walk(tree):
+        if isinstance(node, ast.Call):
+            if not (isinstance(node.func, ast.Name) and node.func.id in _PURE_BUILTINS):
+                return False
+        elif isinstance(node, ast.Name):
+            names.add(node.id)
+    names -= _PURE_BUILTINS
+    if names & _names_bound_in_block(block):
+        return False
+    if names & set(ctx.get("_volatile_names", ())):
+        return False
+    return True
+
+
 def _copy_env(env: Dict[str, object]) -> Dict[str, object]:
     """Copy a constant environment for a nested scope (tracked lists are copied too,
     so that mirroring a mutation in one branch cannot leak into a sibling branch)."""
@@ -2380,6 +2407,7 @@ def _rewrite_nodes(nodes: List[object], promoted: Set[str]) -> List[object]:
                     var_name=node.var_name,
                     count=node.count,
                     body=_rewrite_nodes(node.body, promoted),
+                    hoist_count=node.hoist_count,
                 )
             )
             continue
@@ -3091,6 +3119,11 @@ def _parse_simple_lines(
                 raise ValueError("for-range loops require a single range(count) argument")
             count = _resolve_numeric_arg(count_arg, 0)
             block, next_idx = _collect_block(snippet, i)
+            # Python evaluates range(...) once; a limit the body (or a helper it calls)
+            # can change must not be re-evaluated by the C++ loop condition.
+            hoist_count = isinstance(count, str) and not _range_limit_is_invariant(
+                count_arg, block, ctx
+            )
             _forget_constants(ctx, _names_bound_in_block(block))
             child_ctx = dict(ctx)
             child_ctx["vars"] = _copy_env(vars)
@@ -3164,7 +3197,12 @@ def _parse_simple_lines(
                 ctx["tmp_counter"] = child_ctx["tmp_counter"]
 
             body.append(
-                ForRangeLoop(var_name=var_name, count=count, body=loop_body)
+                ForRangeLoop(
+                    var_name=var_name,
+                    count=count,
+                    body=loop_body,
+                    hoist_count=hoist_count,
+                )
             )
             i = next_idx
             continue
